@@ -347,3 +347,44 @@ def mk_pds_message(lens_hint):
 
 mk_pds_message('one carrier')
 mk_pds_message('two carriers')
+
+
+@unit('loads-hex-bitmap/arbitrary-character', props=['C07'], functions=[Q + 'loads', Q + '_iso8583_to_dict', Q + '_get_bitmap_list'])
+def u_hex_bitmap_any(E):
+    """hex bitmap rendering: one bitmap character arbitrary (hex digit or not), everything after the bitmap arbitrary;
+    and messages too short to hold a hex bitmap"""
+    E.merge_ifs = True
+    install_bitarray_contracts(E)
+    install_walker_specs(E)
+    enc, cd = codec(E)
+    x = E.fresh_seq('bytes', 'x')
+    E.assume(x.n == 1)
+    data = E.fresh_seq('bytes', 'data')
+    mti = E.fix_len(E.fresh_seq('bytes', 'mti'))
+    pos = E.choose(2, 'hexpos')
+    E.assume(mti.n == 4) if mti.clen() is None else None
+    m4 = seq_items('bytes', [E.fresh_seq('bytes', 'mt').at(z3.IntVal(k)) for k in range(4)])
+    hexbm = [ord(c) for c in '8' + '0' * 31]
+    idx = (1, 31)[pos]
+    bm = seq_items('bytes', hexbm[:idx] + [x.at(z3.IntVal(0))] + hexbm[idx + 1:])
+    raw = seq_concat(seq_concat(m4, bm), data)
+    E.native_input({'kind': 'loads', 'raw': raw, 'enc': 'latin_1', 'hex': True})
+    try:
+        E.call(Q + 'loads', raw, encoding=enc, hex_bitmap=TRUE)
+    except PyRaise as pr:
+        E.prove('loads[hex bitmap, arbitrary character]/only-the-library-error-escapes(%s)' % E.exc_name(pr.exc), z3.BoolVal(E.exc_is(pr.exc, ERR)), 'P', 'xpost')
+    E.cover('loads-hex/any')
+
+
+@unit('loads/too-short', props=['C07', 'C08'], functions=[Q + 'loads', Q + '_iso8583_to_dict'])
+def u_too_short(E):
+    enc, cd = codec(E)
+    for hexb, hl in ((False, 20), (True, 36)):
+        raw = E.fresh_seq('bytes', 'raw%d' % hl)
+        E.assume(raw.n < hl)
+        try:
+            E.call(Q + 'loads', raw, encoding=enc, hex_bitmap=VBool(hexb))
+            E.prove('loads[shorter than MTI+bitmap,%s]/refused' % ('hex' if hexb else 'binary'), False, 'P')
+        except PyRaise as pr:
+            E.prove('loads[shorter than MTI+bitmap,%s]/only-the-library-error-escapes(%s)' % ('hex' if hexb else 'binary', E.exc_name(pr.exc)),
+                    z3.BoolVal(E.exc_is(pr.exc, ERR)), 'P', 'xpost')
